@@ -182,14 +182,17 @@ class DramRef:
         self._hist = []
         self.min_slack = {}         # timing name -> minimal observed (spacing - required) in ck
         self.on_cmd = None          # callback(kind, rank, bank, addr, t)
-        if active:
-            sim.add_agent(domain, self)
+        self.ncompared = 0
+        self.default_fn = None
+        sim.add_agent(domain, self)
 
     # ---- helpers ---------------------------------------------------------------------------------
     def push_request(self, rank, bank, we, row, col, tag):
         self.reqq.setdefault((rank, bank), []).append((we, row, col, tag))
 
     def default_word(self, key):
+        if self.default_fn is not None:
+            return self.default_fn(key)
         if self.amap is None:
             return 0
         a = self.amap.inv_c(*key)
@@ -310,6 +313,24 @@ class DramRef:
                 for ph in self.ph:
                     sim.poke(ph["rddata_valid"], 0)
                 self.rv = 0
+        else:
+            # passive: another DRAM model drives the bus; compare what it returns at the advertised read latency
+            # (the write captured above cannot concern a read returning now: rl > wl is not assumed here, the value
+            # expected is the one an independent DRAM holds at the time of the read command plus earlier writes)
+            valid = [S[ph["rddata_valid"]] for ph in self.ph]
+            if self.rq and self.rq[0][0] + 1 <= c:
+                _, key, snap, _e = self.rq.pop(0)
+                word = self.read_key(key) if snap is None else snap
+                got = 0
+                for p, ph in enumerate(self.ph):
+                    got |= S[ph["rddata"]] << (p * self.dbits)
+                self.ncompared += 1
+                if not any(valid):
+                    viol.add("c19.rddata_valid_missing", "model did not assert rddata_valid %d cycles after the read of %s" % (self.rl, (key,)))
+                elif got != word:
+                    viol.add("c19.read_data", "model returned 0x%x for rank/bank/row/col %s, independent reference holds 0x%x" % (got, key, word))
+            elif any(valid):
+                viol.add("c19.rddata_valid_spurious", "model asserts rddata_valid with no read due at this cycle")
         self.cycle = c + 1
 
     def _command(self, kind, r, bank, addr, t, p, c, first):
